@@ -7,6 +7,7 @@ tree (the marker is regenerated from the source on every run).
 import SuccinctlyVerif.Proof.YamlEmit
 import SuccinctlyVerif.Proof.YamlAnchor
 import SuccinctlyVerif.Proof.YamlResolve
+import SuccinctlyVerif.Proof.YamlBlock
 namespace SV.Props.C15
 open SV.Yaml SV.Yaml.Emit
 
@@ -283,6 +284,50 @@ theorem scalar_reread_core (inFlow : Bool) (s : List Char) (style : Style)
 example : loadScalar coreResolve .blockValue
     (yamlQuoteString .v1 false "0x8000000000000000".toList) ≠
     some (.str "0x8000000000000000".toList) := by decide
+
+/-! ## Whole documents on the DOM route (block mappings) -/
+
+section Block
+open SV.Yaml.Block
+
+/-- `emit_load` (PARTIAL): for every document that is a block mapping whose values are strings or
+non-empty nested block mappings, to any depth, and for every indentation step ≥ 1, the lines the
+(fixed) DOM emitter writes — keys through `yaml_quote_key`, values through `yaml_quote_string`,
+nested mappings one `indent_str` step deeper — load back to exactly that document.
+Missing from the modelled subset (covered only by the `cli` loop): sequences (block and the compact
+`- key:` form), flow collections and empty containers, non-string scalars, block scalars, comments,
+anchors/aliases inside the layout, multi-document streams, `--tab`, and the split of a physical line
+into its key and value tokens. -/
+theorem emit_load_partial (step : Nat) (hstep : 1 ≤ step) (t : Tree) (hw : wf t = true) :
+    loadDoc resolvePlainRs (emitLines .v1 step 0 t) = some t := by
+  have h := readBlock_emit resolvePlainRs .v1 step (by omega)
+    (fun top key => key_reread false top key) (fun s => quote_string_reread false s)
+    t 0 [] ((emitLines .v1 step 0 t).length + 1) hw (by simp) (by simp)
+  simp only [List.append_nil] at h
+  simp [loadDoc, h]
+
+/-- For every `--indent` value the CLI accepts (0..7) the fixed DOM emitter's step qualifies. -/
+theorem emit_load_indent_partial (n : Nat) (t : Tree) (hw : wf t = true) :
+    loadDoc resolvePlainRs (emitLines .v1 (domIndentWidth .v1 n) 0 t) = some t :=
+  emit_load_partial _ (indent_step_positive n).1 t hw
+
+/-- Non-vacuity: `a: {" k": "0x1F", c: {d: " x"}}`, `e: "true"`. -/
+example :
+    let t := Tree.cons "a".toList none
+      (.cons " k".toList (some "0x1F".toList) .nil
+        (.cons "c".toList none (.cons "d".toList (some " x".toList) .nil .nil) .nil))
+      (.cons "e".toList (some "true".toList) .nil .nil)
+    wf t = true ∧
+    (emitLines .v1 2 0 t).map (fun l => (l.indent, String.ofList l.key, l.value.map String.ofList)) =
+      [(0, "a", none), (2, "\" k\"", some "\"0x1F\""), (2, "c", none), (4, "d", some "\" x\""),
+       (0, "e", some "\"true\"")] := by decide
+
+/-- Before the fix, `-I 0` (step 0) wrote the nested mapping on its parent's column. -/
+example :
+    let t := Tree.cons "a".toList none (.cons "b".toList (some "x".toList) .nil .nil) .nil
+    loadDoc resolvePlainRs (emitLines .v0 (domIndentWidth .v0 0) 0 t) ≠ some t := by decide
+
+end Block
 
 /-! ## Anchors and aliases -/
 
